@@ -202,8 +202,15 @@ pub fn check_case(c: &Case, rep: &mut Report) {
             Op::ServerSlowPath => {
                 let p = s.profile.clone();
                 // well-formed slow-path traffic that must leave an active session active
-                let b: B = match i % 7 {
-                    0 => proto::set_error_info(&p, c.share_id, 3),
+                // ... and share-control PDUs the client has no use for (server redirection, an unassigned type): reading them
+                // may fail, the session stays what it was
+                let b: B = match i % 9 {
+                    7 | 8 => {
+                        let mut body = B::new();
+                        body.bytes("body", &[0u8; 12][..(i / 9) % 13]);
+                        proto::share_control(if i % 9 == 7 { 0x001A } else { 0x0015 }, p.server_channel, &body)
+                    }
+                    0 => proto::set_error_info(&p, c.share_id, [3u32, 0, 0, 5][(i / 9) % 4]),
                     1 => proto::synchronize(&p, c.share_id, p.user_id),
                     2 => proto::demand_active(&p, c.share_id),
                     3 => proto::control(&p, c.share_id, 4, 0, 0),
@@ -255,9 +262,14 @@ pub fn check_case(c: &Case, rep: &mut Report) {
                             3 => 0x4000,
                             _ => 0x0800,
                         };
-                        ts_pointer_event(Some(base | if *down { 0x8000 } else { 0 }), Some(*x), Some(*y))
+                        // an argument that is 0 may just as well be left out (absent = 0)
+                        let z = |v: u16| if v == 0 && i % 2 == 0 { None } else { Some(v) };
+                        ts_pointer_event(z(base | if *down { 0x8000 } else { 0 }), z(*x), z(*y))
                     }
-                    Op::Key { code, down } => ts_keyboard_event(Some(if *down { 0 } else { 0x8000 }), Some(*code)),
+                    Op::Key { code, down } => {
+                        let z = |v: u16| if v == 0 && i % 2 == 0 { None } else { Some(v) };
+                        ts_keyboard_event(z(if *down { 0 } else { 0x8000 }), z(*code))
+                    }
                     _ => continue,
                 };
                 mon::guarded(|| p.global.write_input_event(pdu, &mut p.mcs).map_err(|e| err_kind(&e)))
